@@ -610,6 +610,56 @@ def run(model: RepoModel, rep, tier: str):
                           "bundle file and overwrites the items stored there")
         else:
             rep.holds("C15.R2", key, FILE, f.node.lineno, f"{len(stores)} index store(s), each followed by bundle_count = max(bundle_count, id + 1)")
+    # "index entry == -1" <=> "item is in the active bundle" is what export (re-points every -1 entry to the bundle it has just written)
+    # and remove_unit_id (deletes from the active bundle on -1) rely on.  A save establishes it with two stores; a call of a method
+    # that reads either table must see both stores done or neither.
+    def touches_tables(fn: Func, seen=None) -> bool:
+        seen = seen if seen is not None else set()
+        if fn.name in seen:
+            return False
+        seen.add(fn.name)
+        for x in walk_no_nested(fn.node):
+            if is_self_attr(x, active_attr) or is_self_attr(x, index_attr):
+                return True
+            if isinstance(x, ast.Call) and is_self_attr(x.func) and fn.cls is not None:
+                callee = model.find_method(fn.cls, x.func.attr)
+                if callee is not None and touches_tables(callee, seen):
+                    return True
+        return False
+    for c in family:
+        f = c.methods.get("save")
+        if f is None:
+            continue
+        cfg = cfg_of(f.node)
+        sa_ = [n for n in cfg.g.nodes if cfg.kind[n] == "stmt" and isinstance(cfg.stmt[n], ast.Assign)
+               and any(isinstance(t, ast.Subscript) and is_self_attr(t.value, active_attr) for t in cfg.stmt[n].targets)]
+        si_ = [n for n in cfg.g.nodes if cfg.kind[n] == "stmt" and isinstance(cfg.stmt[n], ast.Assign)
+               and any(isinstance(t, ast.Subscript) and is_self_attr(t.value, index_attr) for t in cfg.stmt[n].targets)]
+        if not sa_ or not si_:
+            continue
+        key = f"{FILE}::{f.qualname}::index entry and active bundle entry are stored together"
+        bad = None
+        for n in cfg.g.nodes:
+            for cl in cfg.calls_at(n):
+                if not (is_self_attr(cl.func) and n not in sa_ and n not in si_):
+                    continue
+                callee = model.find_method(c, cl.func.attr)
+                if callee is None or not touches_tables(callee):
+                    continue
+                after_a = any(n in cfg.reachable(a) for a in sa_)
+                after_i = any(n in cfg.reachable(i) for i in si_)
+                dom_a = any(cfg.dominates(a, n) for a in sa_)
+                dom_i = any(cfg.dominates(i, n) for i in si_)
+                if (after_a or after_i) and not (dom_a and dom_i):
+                    bad = (n, cl, callee, "the index entry" if after_i and not dom_a else "the active-bundle entry")
+        if bad:
+            n, cl, callee, which = bad
+            rep.violation("C15.R2", key, FILE, cl.lineno,
+                          f"{f.qualname} calls `{norm(cl)}` after storing {which} of the item but before the other store; {callee.qualname} reads "
+                          f"self.{index_attr} / self.{active_attr}: an export at that point re-points the item's -1 entry to a bundle file that "
+                          f"does not contain it (or writes a bundle the index does not know), so the item just saved cannot be read back")
+        else:
+            rep.holds("C15.R2", key, FILE, f.node.lineno, "every call that reads the tables is dominated by both stores (or precedes both)")
     nb = gl.methods.get("new_bundle_id")
     key = f"{FILE}::GeneralLoader.new_bundle_id::returns the counter and advances it"
     if nb is not None:
